@@ -27,6 +27,12 @@ def grid(tier, rng):
                 nseed = len(seeds) if k <= (10 if tier == "quick" else 40) else 2
                 for seed in rng.sample(seeds, nseed):
                     pts.append((k, r, n1, seed))
+    # high code rates (few repair rows): the list of homogeneous choices runs dry before the last column,
+    # so the RFC's "no choice left, choose one randomly" branch is taken -- needs many seeds per point
+    nseeds = 120 if tier == "quick" else 1200
+    for (k, r, n1) in ((10, 4, 3), (12, 4, 3), (8, 3, 3), (20, 5, 3), (16, 6, 4), (30, 7, 5), (25, 6, 5), (40, 8, 5), (6, 3, 3), (14, 5, 4)):
+        for _ in range(nseeds):
+            pts.append((k, r, n1, rng.randrange(1, 2 ** 31 - 1)))
     return pts
 
 
@@ -99,6 +105,8 @@ def run(pid, tier):
             "trace_lines": api["lines"],
             "drift_lines": len(api["drift"]),
             "max_k": max(p[0] for p in pts),
+            "uneven_placements_validated": sum(int(x.split(", ")[0]) for r in api["results"] for x in r.get("pstat", [])),
+            "completion_entries_validated": sum(int(x.split(", ")[1]) for r in api["results"] for x in r.get("pstat", [])),
             "exhaustive": False,
         }
         vlib.write_evidence(pid, tier, "model_checking", cov, time.time() - t0, len(verdict.violations),
